@@ -349,7 +349,7 @@ fn generic_candidates(sc: &Scenario) -> Vec<Scenario> {
     for k in 0..sc.script.len() {
         let removable = matches!(
             sc.script[k],
-            Step::Send { .. } | Step::Advance { .. } | Step::Ping | Step::Cancel { .. } | Step::Shutdown | Step::DrainTimers { .. } | Step::Quiesce
+            Step::Send { .. } | Step::Advance { .. } | Step::Ping | Step::Cancel { .. } | Step::Shutdown | Step::DrainTimers { .. } | Step::Quiesce | Step::Jitter { .. }
         );
         if removable {
             let mut c = sc.clone();
@@ -519,6 +519,9 @@ pub fn worker_loop(prop: &dyn Property, a: &WorkerArgs) -> WorkerStats {
                 *st.other_rules.entry(o.clone()).or_insert(0) += 1;
             }
             if let Some(d) = &jd.verdict.discarded {
+                if d.starts_with("harness") && st.harness_errors.len() < 5 {
+                    st.harness_errors.push(format!("workload {} schedule {}: {}", idx, j, d));
+                }
                 st.discarded += 1;
                 *st.discarded_reasons.entry(d.clone()).or_insert(0) += 1;
             } else {
